@@ -4,6 +4,7 @@ package main
 
 import (
 	"fmt"
+	"os"
 	"go/types"
 	"sort"
 	"strings"
@@ -102,6 +103,9 @@ func (x *Exec) assumptions(st *State) []*Term {
 		add(t)
 	}
 	for _, t := range congruenceAxioms(work.apps) {
+		add(t)
+	}
+	for _, t := range theoryAxioms(work.apps) {
 		add(t)
 	}
 	return out
@@ -333,7 +337,10 @@ func (x *Exec) verifyContract(ct *Contract) (err error) {
 				err = e
 				return
 			}
-			panic(r)
+			if os.Getenv("VERIF_DEBUG") != "" {
+				panic(r)
+			}
+			err = fmt.Errorf("internal: %v", r)
 		}
 	}()
 	x.cur = ct
